@@ -90,6 +90,26 @@ pub fn parse_reply(s: &str) -> Option<ReplyTok> {
     }
 }
 
+thread_local! {
+    /// Which concrete error type the scripted bus fails with (0 = a plain string error).
+    pub static BUS_ERR_KIND: std::cell::Cell<u8> = std::cell::Cell::new(0);
+}
+pub const BUS_ERR_KINDS: u8 = 6;
+
+/// The scripted bus error in one of several concrete types: what a failing transport can really hand back
+/// (a boxed string, I/O errors of several kinds, the frame codec's own errors).  A controller must treat them
+/// all alike: the exchange failed.
+pub fn scripted_bus_error() -> Box<dyn Error + Send + Sync> {
+    match BUS_ERR_KIND.with(|k| k.get()) {
+        1 => Box::new(std::io::Error::new(std::io::ErrorKind::TimedOut, "scripted timeout")),
+        2 => Box::new(std::io::Error::new(std::io::ErrorKind::Other, "scripted io error")),
+        3 => Box::new(Frame::from_bytes(b":01007F02FF00").unwrap_err()), // BadChecksum
+        4 => Box::new(Frame::from_bytes(b"noise").unwrap_err()),         // InvalidFrame
+        5 => Box::new(Frame::from_bytes(b":02007F02FF7E").unwrap_err()), // FrameDataMismatch
+        _ => "scripted bus error".into(),
+    }
+}
+
 /// A bus that answers from a script and records everything it is sent.
 #[derive(Debug)]
 pub struct ScriptBus {
@@ -113,7 +133,7 @@ impl SignBus for ScriptBus {
                 self.starved = true;
                 Err("script exhausted".into())
             }
-            Some(ReplyTok::Bus) => Err("scripted bus error".into()),
+            Some(ReplyTok::Bus) => Err(scripted_bus_error()),
             Some(ReplyTok::Ok(None)) => Ok(None),
             Some(ReplyTok::Ok(Some(m))) => Ok(Some(m)),
         }
@@ -350,8 +370,9 @@ fn run_case_inner(line: &str) -> Option<String> {
         ["data", n] => {
             let n: usize = n.parse().ok()?;
             let v = vec![0u8; n];
-            let owned = Data::try_new(v.clone()).map(|_| ()).map_err(|e| show_frame_err(&e));
+            // borrowed first, then the vector itself is moved in: no copy, so a huge zeroed block is never touched
             let borrowed = Data::try_new(&v[..]).map(|_| ()).map_err(|e| show_frame_err(&e));
+            let owned = Data::try_new(v).map(|_| ()).map_err(|e| show_frame_err(&e));
             if owned != borrowed {
                 "DISAGREE-owned-borrowed".to_string()
             } else {
